@@ -63,6 +63,9 @@ func ScanNondeterminism(fn *ssa.Function) []NDHit {
 					// append/copy into a (re-sliced) package-level slice writes its backing array in place
 					g := sliceOfGlobal(cv.Call.Args[0], 0)
 					add("global-store", in, n[len("builtin:"):]+" into the backing array of package variable "+g.Pkg.Pkg.Name()+"."+g.Name())
+				case mutatesSharedNumber(n, &cv.Call) != nil:
+					g := mutatesSharedNumber(n, &cv.Call)
+					add("global-store", in, n+" with the object held in package variable "+g.Pkg.Pkg.Name()+"."+g.Name()+" as its receiver (the shared value itself is rewritten in place)")
 				case n == "time.Now" || n == "time.Since" || n == "time.Until" || strings.HasSuffix(n, "utility.GetTime"):
 					add("clock", in, n)
 				case strings.HasPrefix(n, "math/rand.") || strings.HasPrefix(n, "(*math/rand.") || strings.HasPrefix(n, "crypto/rand."):
@@ -471,4 +474,46 @@ func getterGlobal(call *ssa.Call) *ssa.Global {
 		return nil
 	}
 	return g
+}
+
+var numberMutators = map[string]bool{"Add": true, "Sub": true, "Mul": true, "Div": true, "Quo": true, "Mod": true, "Rem": true, "Set": true, "SetBytes": true, "SetUint64": true, "SetInt64": true, "SetString": true, "Neg": true, "Abs": true, "Exp": true, "Lsh": true, "Rsh": true, "And": true, "Or": true, "Xor": true, "Not": true, "Sqrt": true, "QuoRem": true, "DivMod": true, "SetBit": true, "SetBits": true, "Clear": true, "SetOne": true, "AddMod": true, "MulMod": true, "SDiv": true, "SMod": true, "SetFromBig": true, "SetInt": true, "SetFloat64": true, "SetFrac": true, "Inv": true}
+
+// mutatesSharedNumber: a mutating method of big.Int/big.Float/big.Rat/uint256.Int whose receiver is (possibly, through a
+// phi) the object a package-level pointer variable holds.
+func mutatesSharedNumber(name string, cc *ssa.CallCommon) *ssa.Global {
+	var m string
+	for _, pre := range []string{"(*math/big.Int).", "(*math/big.Float).", "(*math/big.Rat).", "(*github.com/holiman/uint256.Int)."} {
+		if strings.HasPrefix(name, pre) {
+			m = strings.TrimPrefix(name, pre)
+		}
+	}
+	if m == "" || !numberMutators[m] || len(cc.Args) == 0 {
+		return nil
+	}
+	seen := map[ssa.Value]bool{}
+	var find func(v ssa.Value, d int) *ssa.Global
+	find = func(v ssa.Value, d int) *ssa.Global {
+		if v == nil || seen[v] || d > 6 {
+			return nil
+		}
+		seen[v] = true
+		switch x := v.(type) {
+		case *ssa.UnOp:
+			if x.Op == token.MUL {
+				if g, ok := x.X.(*ssa.Global); ok {
+					if _, isPtr := g.Type().(*types.Pointer).Elem().Underlying().(*types.Pointer); isPtr {
+						return g
+					}
+				}
+			}
+		case *ssa.Phi:
+			for _, e := range x.Edges {
+				if g := find(e, d+1); g != nil {
+					return g
+				}
+			}
+		}
+		return nil
+	}
+	return find(cc.Args[0], 0)
 }
